@@ -183,6 +183,76 @@ pub fn control_inputs(path: &str) -> Vec<Input> {
     out
 }
 
+/// TLC-enumerated control strings made *executable* (C01): type (i32) -> (); func 0 = host import env.mark (i32) -> (),
+/// func 1 = the string, exported "f".  A marker `i32.const k; call mark` precedes the k-th symbol, so which code is reached
+/// (and in which order) is visible in the host-call trace; the j-th Const becomes `local.get 0; i32.const 2^j; i32.and`, so the
+/// argument decides every condition.  Strings with symbols outside Exec.tla's subset are skipped.
+pub fn exec_control_inputs(path: &str) -> Vec<Input> {
+    use wasm_encoder as we;
+    use wasm_encoder::Instruction as I;
+    let text = std::fs::read_to_string(path).expect("control string file");
+    let mut out = vec![];
+    'line: for (k, l) in text.lines().enumerate() {
+        let l = l.trim();
+        let Ok(inner) = serde_json::from_str::<String>(l) else { continue };
+        let Some(payload) = inner.strip_prefix("CASE ") else { continue };
+        let v: Value = serde_json::from_str(payload).unwrap();
+        let mut f = we::Function::new([]);
+        let mut desc = String::new();
+        let mut nconst = 0u32;
+        for (pos, op) in v.as_array().unwrap().iter().enumerate() {
+            let name = op[0].as_str().unwrap();
+            let labels: Vec<u32> = op[1].as_array().unwrap().iter().map(|x| x.as_u64().unwrap() as u32).collect();
+            desc.push_str(name);
+            for l in &labels {
+                desc.push_str(&format!("{}", l));
+            }
+            desc.push(' ');
+            f.instruction(&I::I32Const(pos as i32 + 1));
+            f.instruction(&I::Call(0));
+            match name {
+                "Const" => {
+                    f.instruction(&I::LocalGet(0));
+                    f.instruction(&I::I32Const(1 << (nconst % 3)));
+                    f.instruction(&I::I32And);
+                    nconst += 1;
+                }
+                "Drop" => drop(f.instruction(&I::Drop)),
+                "Nop" => drop(f.instruction(&I::Nop)),
+                "Return" => drop(f.instruction(&I::Return)),
+                "Unreachable" => drop(f.instruction(&I::Unreachable)),
+                "Block" => drop(f.instruction(&I::Block(we::BlockType::Empty))),
+                "Loop" => drop(f.instruction(&I::Loop(we::BlockType::Empty))),
+                "If" => drop(f.instruction(&I::If(we::BlockType::Empty))),
+                "Else" => drop(f.instruction(&I::Else)),
+                "End" => drop(f.instruction(&I::End)),
+                "Br" => drop(f.instruction(&I::Br(labels[0]))),
+                "BrIf" => drop(f.instruction(&I::BrIf(labels[0]))),
+                "BrTable" => drop(f.instruction(&I::BrTable(labels[..labels.len() - 1].to_vec().into(), labels[labels.len() - 1]))),
+                _ => continue 'line,
+            };
+        }
+        let mut m = we::Module::new();
+        let mut types = we::TypeSection::new();
+        types.function([we::ValType::I32], []);
+        m.section(&types);
+        let mut imports = we::ImportSection::new();
+        imports.import("env", "mark", we::EntityType::Function(0));
+        m.section(&imports);
+        let mut funcs = we::FunctionSection::new();
+        funcs.function(0);
+        m.section(&funcs);
+        let mut exports = we::ExportSection::new();
+        exports.export("f", we::ExportKind::Func, 1);
+        m.section(&exports);
+        let mut code = we::CodeSection::new();
+        code.function(&f);
+        m.section(&code);
+        out.push(Input { id: format!("ectl-{}", k), bytes: m.finish(), source: format!("ectl:{}", desc.trim()) });
+    }
+    out
+}
+
 /// The operator sweep: every instance of the operator table, once in an executed position and once
 /// after a terminator (dead code), inside the probe module.
 pub fn operator_inputs() -> Vec<Input> {
@@ -286,6 +356,7 @@ pub fn resolve_inputs(spec: &str, seed: u64) -> Vec<Input> {
             }
             "fam" => out.extend(family_inputs(f[2], f[1])),
             "ctl" => out.extend(control_inputs(f[1])),
+            "ectl" => out.extend(exec_control_inputs(f[1])),
             "ops" => out.extend(operator_inputs()),
             "manyimp" => out.extend(many_import_inputs()),
             "dupimp" => out.extend(duplicate_import_inputs(seed, f[1].parse().unwrap())),
@@ -1477,7 +1548,13 @@ pub fn exec_case(inp: &Input, gc_runs: u32) -> Option<Value> {
         .collect();
     // every exported local function is called (twice, different arguments), in a random order
     let mut calls = vec![];
-    for round in 0..2 {
+    if inp.source.starts_with("ectl:") {
+        // executable control strings: the argument's low three bits decide every condition
+        for a in 0..8 {
+            calls.push(json!({"name": "f", "args": [a], "round": 0}));
+        }
+    }
+    for round in 0..(if calls.is_empty() { 2 } else { 0 }) {
         let mut order: Vec<usize> = (0..callable.len()).collect();
         for i in (1..order.len()).rev() {
             order.swap(i, r.gen_range(0..=i));
